@@ -73,6 +73,8 @@ def generate(rng, run, tier):
                 h = {'k': 'vtuple', 'a': [child], 't': rng.random() < 0.3}
             else:
                 h = {'k': 'seq', 'o': rng.choice(list(H.SEQ_ORIGINS)), 'a': [child]}
+            if _nested_same_generic(h) and not allow_nested:
+                continue
             try:
                 o, i = H.gen_one_bad(rng, h)
             except H.CannotGenerate:
@@ -171,7 +173,7 @@ def shrink(case, violation):
 
 
 def _sig_generic_recursion(case, v):
-    return v.get('kind') == 'missed_must_reject' and _nested_same_generic(case.get('h', {'k': 'x'}))
+    return v.get('kind') in ('missed_must_reject', 'unreachable_index', 'nonrandom_not_item0') and _nested_same_generic(case.get('h', {'k': 'x'}))
 
 
 SIGNATURES = {'generic_nested_in_itself': _sig_generic_recursion}
